@@ -195,8 +195,14 @@ def clone (kh : KH) : KH :=
             nkeys := kh.nkeys, smem := kh.smem }
 
 /-! ## operation histories -/
+/-- the C-string view of a key argument passed with `n = -1`: the bytes before the first NUL -/
+def cstrOf (k : Key) : Key := k.takeWhile (· != 0)
+
+/-- `store`/`lookup`: the buffer API (`key`, `n = key.length`); `storeStr`/`lookupStr`: the string API (`n = -1`), where
+    `jenkins_hash` runs its string loop, `n = strlen(key)`, and `Lookup` compares with `strcmp` -/
 inductive Op
   | store (k : Key) | lookup (k : Key) | get (i : Nat) | number | reuse | clone
+  | storeStr (k : Key) | lookupStr (k : Key)
 deriving Repr
 
 inductive Out
@@ -211,6 +217,8 @@ def step (H : Key → Nat → Nat) (kh : KH) : Op → Option (KH × Out)
   | .number => some (kh, .num kh.nkeys)
   | .reuse => some (reuse kh, .done)
   | .clone => some (clone kh, .done)
+  | .storeStr k => (store H kh (cstrOf k)).map fun (kh', st, idx) => (kh', .stored (st == .edup) idx)
+  | .lookupStr k => (lookup H kh (cstrOf k)).map fun (st, idx) => (kh, if st == .ok then .found idx else .notfound)
 
 def run (H : Key → Nat → Nat) : KH → List Op → Option (List Out)
   | _, [] => some []
@@ -227,6 +235,12 @@ def specStep (keys : List Key) : Op → Option (List Key × Out)
   | .number => some (keys, .num keys.length)
   | .reuse => some ([], .done)
   | .clone => some (keys, .done)
+  | .storeStr k =>
+    let k := cstrOf k
+    if k ∈ keys then some (keys, .stored true (keys.idxOf k)) else some (keys ++ [k], .stored false keys.length)
+  | .lookupStr k =>
+    let k := cstrOf k
+    if k ∈ keys then some (keys, .found (keys.idxOf k)) else some (keys, .notfound)
 
 def specRun : List Key → List Op → Option (List Out)
   | _, [] => some []
